@@ -225,8 +225,8 @@ def plan():
                  desc="decoder grouping/validation of an op sequence against the reference grouping", mem=12, timeout=1500)
     P["C09"] = [c09(0b001, 2, ("quick", "thorough")), c09(0b011, 1, ("quick", "thorough")), grouping((0, 1, 2), 3, ("quick", "thorough")), grouping((1, 0, 0), 2, ("quick", "thorough")),
                 grouping((0, 1, 0), 2, ("quick", "thorough")), grouping((2, 0, 0), 1, ("quick", "thorough"))] + \
-        [c09(m, n, ("thorough",)) for m in (0b000, 0b011, 0b111) for n in (0, 2, 3)] + [grouping((0, 2, 1), 3, ("thorough",)), grouping((0, 1, 1), 3, ("thorough",)), grouping((0, 2, 2), 3, ("thorough",))]
-    P["C03"] += [grouping((0, 1, 2), 3, ("quick", "thorough")), grouping((0, 1, 1), 3, ("thorough",))]
+        [c09(m, n, ("thorough",)) for m in (0b000, 0b011, 0b111) for n in (0, 2, 3)] + [grouping((0, 2, 1), 3, ("thorough",)), grouping((0, 2, 2), 3, ("thorough",))]
+    P["C03"] += [grouping((0, 1, 2), 3, ("quick", "thorough")), grouping((0, 2, 1), 3, ("thorough",))]
     # ---------------- C12
     def fd_sched(grace, tiers):
         return H(f"fd_sched_{grace}", f"fd_schedule_gc({grace})", mod="failure_detector", macro="h_fd", unwind=6, tiers=tiers, rules=R_COMMON, covers=["scheduled for deletion", "not yet scheduled"],
